@@ -32,6 +32,7 @@ type Obligation struct {
 	Time   float64
 	Model  map[string]string
 	Raw    string
+	RP     *replayCtx
 }
 
 type inputSym struct {
@@ -134,6 +135,7 @@ type executor struct {
 	parent   *executor
 	safety   bool
 	ctrStack []string
+	paramVals []Value
 }
 
 type inlineCollector struct {
@@ -415,6 +417,9 @@ func (ex *executor) addObligation(st *state, kind, text string, goal *Term, pos 
 		o.Pos = ex.eng.fset.Position(pos)
 	}
 	o.Inputs = r.inputs
+	if r.fn != nil {
+		o.RP = &replayCtx{ex: r, fn: r.fn, params: r.paramVals}
+	}
 	r.obls = append(r.obls, o)
 	return o
 }
